@@ -408,6 +408,7 @@ func resolveUnionBatch(ctx context.Context, sources []interface{}, typ *Union, s
 	}
 
 	var workUnits []*WorkUnit
+	narrowed := make(map[narrowedFragment]*Fragment)
 	for srcType, sources := range sourcesByType {
 		gqlType := typ.Types[srcType]
 		// Resolve every member type once, with all the fragments that apply to it:
@@ -417,6 +418,10 @@ func resolveUnionBatch(ctx context.Context, sources []interface{}, typ *Union, s
 		// also for one that no fragment applies to.
 		applicable := &SelectionSet{Selections: selectionSet.Selections}
 		for _, fragment := range selectionSet.Fragments {
+			if fragment.On == typ.Name {
+				// A fragment on the union itself applies to every member.
+				fragment = memberFragment(typ, srcType, fragment, narrowed)
+			}
 			if fragment.On != srcType {
 				continue
 			}
@@ -429,6 +434,35 @@ func resolveUnionBatch(ctx context.Context, sources []interface{}, typ *Union, s
 		workUnits = append(workUnits, units...)
 	}
 	return workUnits, nil
+}
+
+type narrowedFragment struct {
+	member   string
+	fragment *Fragment
+}
+
+// memberFragment narrows a fragment on a union itself to one member of the
+// union: the result is a fragment on that member with the same directives, the
+// selections made on the union (__typename), the fragments on the member and -
+// narrowed in the same way - the nested fragments on the union. Every fragment
+// is narrowed once per member, however often it is spread.
+func memberFragment(typ *Union, member string, fragment *Fragment, narrowed map[narrowedFragment]*Fragment) *Fragment {
+	key := narrowedFragment{member, fragment}
+	if f, ok := narrowed[key]; ok {
+		return f
+	}
+	selectionSet := &SelectionSet{Selections: fragment.SelectionSet.Selections}
+	result := &Fragment{On: member, Directives: fragment.Directives, SelectionSet: selectionSet}
+	narrowed[key] = result
+	for _, nested := range fragment.SelectionSet.Fragments {
+		if nested.On == typ.Name {
+			nested = memberFragment(typ, member, nested, narrowed)
+		}
+		if nested.On == member {
+			selectionSet.Fragments = append(selectionSet.Fragments, nested)
+		}
+	}
+	return result
 }
 
 // Traverses the object selections and resolves or creates work units to resolve
